@@ -19,7 +19,8 @@
      is still under way, no blocking pop executed by EXEC or pipelined behind a blocking pop that
      blocked, no disconnect while blocked) — by induction over the event list with the invariant `Inv`;
   4. the witness lemmas: each excluded class really breaks the full statement on `Quirks.code`
-     (each witness is replayed on the real server by lib/c13.py), and no longer does on `Quirks.fixed`.
+     (each witness is replayed on the real server by lib/c13.py), and no longer does on `Quirks.fixed`
+     (the five local repairs: notify per element, wake at push, unregister on service, no blocking in EXEC, key de-duplication).
 -/
 import FerrousSpec.Proofs.BlockingRun
 import FerrousSpec.Proofs.BlockingFifo
@@ -67,6 +68,16 @@ def FifoService (q : Quirks) : Prop :=
 theorem accounting (q : Quirks) (evs : List Event) :
     (run q evs).pushed.Perm (delivered (run q evs) ++ (run q evs).lost ++ (run q evs).store) :=
   Acc_runFrom q evs init Acc_init
+
+/-- No element is handed out twice, nor handed out and kept: if the pushed elements are pairwise distinct, so are
+    the delivered and the stored ones taken together — for every history, as the code is. -/
+theorem no_duplication (q : Quirks) (evs : List Event) (h : (run q evs).pushed.Nodup) :
+    (delivered (run q evs) ++ (run q evs).store).Nodup := by
+  have hA := accounting q evs
+  have hn : (delivered (run q evs) ++ (run q evs).lost ++ (run q evs).store).Nodup := hA.nodup_iff.mp h
+  refine List.Nodup.sublist ?_ hn
+  rw [List.append_assoc]
+  exact List.Sublist.append (List.Sublist.refl _) (List.sublist_append_right _ _)
 
 /-- Blocked clients are served in the order they blocked — holds as the code is, for all histories. -/
 theorem fifo_service (q : Quirks) : FifoService q :=
@@ -150,7 +161,7 @@ def wDisconnectBlocked : List Event :=
 
 theorem conservation_fails_disconnect_while_blocked : (run Quirks.code wDisconnectBlocked).lost = [(ka, [1])] := by decide
 
-/-- none of the four local repairs reaches this one (it needs the server to notice the hang-up of a blocked peer) -/
+/-- none of the local repairs reaches this one (it needs the server to notice the hang-up of a blocked peer) -/
 theorem conservation_fails_disconnect_even_fixed : (run Quirks.fixed wDisconnectBlocked).lost = [(ka, [1])] := by decide
 
 /-- a second blocking pop pipelined behind one that blocked is executed at once: two registrations, one
@@ -216,7 +227,7 @@ theorem never_early_nil_fails : ¬ NeverEarlyNil Quirks.code := fun h => by
 theorem never_early_nil_fails_reply :
     outOf (runFrom Quirks.code (run Quirks.code wLeftoverDeadline) [.timeouts 260]) 3 = [.pair ka [1], .nilArr] := by decide
 
-/-! ### The same witnesses with the four local repairs switched on -/
+/-! ### The same witnesses with the local repairs switched on -/
 
 example : (run Quirks.fixed wMultiKeyLeftover).lost = [] ∧ (run Quirks.fixed wMultiKeyLeftover).store = [(kb, [2])] := by decide
 example : (run Quirks.fixed wExecConn0).lost = [] ∧ outOf (run Quirks.fixed wExecConn0) 3 = [.ok, .queued, .arrHdr 1, .nilArr] := by decide
@@ -224,9 +235,18 @@ example : outOf (run Quirks.fixed wOneWakePerPush) 4 = [.pair ka [2]] ∧ (run Q
 example : outOf (run Quirks.fixed wPipelinedPushPop) 3 = [.pair ka [1]] ∧ outOf (run Quirks.fixed wPipelinedPushPop) 2 = [.int 1, .nil, .int 1] := by decide
 example : ((step Quirks.fixed (run Quirks.fixed wLeftoverDeadline) (.timeouts 260)).conns 3).blocked = some ⟨[ka], none, .left⟩ := by decide
 /-- each repair alone flips its own witness -/
-example : (run ⟨false, false, true, false⟩ wMultiKeyLeftover).lost = [] := by decide
-example : (run ⟨false, false, false, true⟩ wExecConn0).lost = [] := by decide
-example : outOf (run ⟨true, false, false, false⟩ wOneWakePerPush) 4 = [.pair ka [2]] := by decide
-example : outOf (run ⟨false, true, false, false⟩ wPipelinedPushPop) 3 = [.pair ka [1]] := by decide
+example : (run ⟨false, false, true, false, false⟩ wMultiKeyLeftover).lost = [] := by decide
+example : (run ⟨false, false, false, true, false⟩ wExecConn0).lost = [] := by decide
+example : outOf (run ⟨true, false, false, false, false⟩ wOneWakePerPush) 4 = [.pair ka [2]] := by decide
+example : outOf (run ⟨false, true, false, false, false⟩ wPipelinedPushPop) 3 = [.pair ka [1]] := by decide
+
+/-- the same key named twice: two registrations of one client; with one notify per element both are woken by a
+    two-element push, the second wake-up finds the client served and its element is popped for nobody —
+    unless a key named twice is waited on once (found by lib/c13.py on the tree with the first four repairs) -/
+def wDuplicateKey : List Event :=
+  [ .conn 3 0 [.bpop .right [ka, ka] 0], .conn 2 0 [.multi, .push .left ka [[1], [2]], .exec], .wakeups ]
+
+example : (run ⟨true, true, true, true, false⟩ wDuplicateKey).lost = [(ka, [2])] := by decide
+example : (run Quirks.fixed wDuplicateKey).lost = [] ∧ (run Quirks.fixed wDuplicateKey).store = [(ka, [2])] := by decide
 
 end Ferrous.C13
